@@ -311,10 +311,14 @@ def call(eng, ctx, cp, self_ty, trait, generics, args, env):
             return int_cmp(a, b)
         if isinstance(a, VecV) and isinstance(b, VecV):
             return bytes_cmp(ctx, a, b)
+        if isinstance(a, (Tup, Arr)) and isinstance(b, (Tup, Arr)):
+            return Sc("i8", generic_cmp(eng, ctx, a, b), enum="Ordering")
     if tn == "PartialOrd" and m == "partial_cmp":
         a, b = deref(args[0]), deref(args[1])
         if isinstance(a, Sc) and isinstance(b, Sc):
             return OPT_SOME(int_cmp(a, b))
+        if isinstance(a, (Tup, Arr)) and isinstance(b, (Tup, Arr)):
+            return OPT_SOME(Sc("i8", generic_cmp(eng, ctx, a, b), enum="Ordering"))
     if tn == "PartialOrd" and m in ("lt", "le", "gt", "ge") and len(args) == 2:
         # the provided comparison operators: defined through partial_cmp of the (dereferenced) operands
         a, b = args
@@ -1282,6 +1286,10 @@ def generic_cmp(eng, ctx, a, b):
     if isinstance(a, Sc) and isinstance(b, Sc):
         if not is_sym(a.v) and not is_sym(b.v):
             return (int(a.v) > int(b.v)) - (int(a.v) < int(b.v))
+        if a.ty == "bool":
+            one, zero = z3.BitVecVal(1, 8), z3.BitVecVal(0, 8)
+            a = Sc("u8", z3.If(zbool(a), one, zero))
+            b = Sc("u8", z3.If(zbool(b), one, zero))
         x, y = bv(a), bv(b)
         if ctx.branch(x == y, "cmp-eq"):
             return 0
